@@ -192,6 +192,12 @@ func Compile(originConf *Config, exprStr string) (*Expr, error) {
 		return nil, res.err
 	}
 
+	// event reporting adds an event node in front of every node,
+	// the doubled program must still be addressable by int16 indexes
+	if (conf.CompileOptions[ReportEvent] || conf.CompileOptions[Debug]) && res.size*2 > math.MaxInt16 {
+		return nil, fmt.Errorf("expression cannot exceed a maximum of %d nodes when event reporting is enabled, got: [%d]", math.MaxInt16/2, res.size)
+	}
+
 	expr := buildExpr(conf, ast, res.size)
 
 	return expr, nil
